@@ -46,4 +46,12 @@ PROPS = {
                 "`closest --table -n <all>` for raw, snp and tn93 and compared with the definition (snp exact, raw as the exact 9-decimal rounding of n/d, "
                 "tn93 within 1e-9 of the same expression evaluated on the definitional counts); non-trivial as C06",
     },
+    "C10": {
+        "streams": {"C10": (600, 10000)},
+        "thorough_seeds": 3,
+        "shrink": True,
+        "rule": "reference A/C/G/T (1 in 8 with ambiguity codes), width 1-200, 1-20 rows with SNPs and ambiguity tracts placed at the start, at the end, "
+                "of length 1, two tracts one base apart, everything ambiguous, several random tracts; updown.List in-process under random FASTA layouts; "
+                "non-trivial = some row has a non-A/C/G/T column",
+    },
 }
